@@ -270,6 +270,62 @@ func runC04(c *Ctx) {
 		if nSites < 2 {
 			c.undecided("C04-R3: %d NewVM sites found outside pkg/vm constructors, floor 2", nSites)
 		}
+		// a VM built as a literal (not through NewVM) starts with maxSteps == 0 = unlimited: it must set a positive
+		// bound itself (or copy the creating VM's) before it executes
+		nLit := 0
+		for p := range c.SSA {
+			rel := strings.TrimPrefix(p, modPath+"/")
+			if strings.HasPrefix(rel, "examples") {
+				continue
+			}
+			for _, fn := range c.srcFuncs(rel) {
+				if fnKey(fn) == vmPkg+".NewVM" {
+					continue
+				}
+				k := 0
+				eachInstr(fn, func(_ *ssa.BasicBlock, _ int, ins ssa.Instruction) {
+					al, ok := ins.(*ssa.Alloc)
+					if !ok || !typeIs(derefPtr(al.Type()), vmPath, "VM") {
+						return
+					}
+					// only literals that are initialised here (some field store), not `var vm VM` copies of a built one
+					init, bounded := false, false
+					for _, r := range refs(al) {
+						fa, ok := r.(*ssa.FieldAddr)
+						if !ok {
+							continue
+						}
+						for _, rr := range refs(fa) {
+							st, ok := rr.(*ssa.Store)
+							if !ok || st.Addr != ssa.Value(fa) {
+								continue
+							}
+							init = true
+							if _, f, ok := fieldOf(fa); ok && f == "maxSteps" {
+								if kv, isK := constInt(st.Val); !isK || kv > 0 {
+									bounded = true
+								}
+							}
+						}
+					}
+					// a whole-struct copy of an existing VM carries its bound
+					for _, r := range refs(al) {
+						if st, ok := r.(*ssa.Store); ok && st.Addr == ssa.Value(al) {
+							if _, isC := st.Val.(*ssa.Const); !isC {
+								bounded = true
+							}
+						}
+					}
+					if !init {
+						return
+					}
+					nLit++
+					k++
+					c.ob("C04-R3", fnKey(fn)+"#VM-literal-"+itoa(k)+"-has-step-bound", al.Pos(), bounded, "a VM is built as a literal without a step bound (maxSteps stays 0 = unlimited; only NewVM installs the default): a non-terminating loop in the code it runs - the body of a compiled async block - is never stopped and its goroutine spins for ever")
+				})
+			}
+		}
+		c.Sites["C04-R3#VM-literals"] = nLit
 		if rl := c.mustFn("C04-R3", vmPkg, "VM.runLoop"); rl != nil {
 			ok := false
 			for _, lp := range naturalLoops(rl) {
@@ -861,3 +917,10 @@ func errorIface() *types.Interface {
 	return errIface
 }
 
+
+func derefPtr(t types.Type) types.Type {
+	if p, ok := t.Underlying().(*types.Pointer); ok {
+		return p.Elem()
+	}
+	return t
+}
